@@ -436,9 +436,25 @@ func callErrEdges(fn *ssa.Function, call ssa.Value) (succ, fail []Edge, checked 
 type Cuts struct {
 	Edges  map[Edge]bool
 	Instrs map[ssa.Instruction]bool
+	// Via: edges that are cut only for paths that entered the branching block through a given predecessor
+	// (the branch condition is a phi there, and only that incoming value establishes the fact)
+	Via map[viaEdge]bool
 }
 
-func newCuts() *Cuts { return &Cuts{Edges: map[Edge]bool{}, Instrs: map[ssa.Instruction]bool{}} }
+type viaEdge struct {
+	Pred, From *ssa.BasicBlock
+	Succ       int
+}
+
+func newCuts() *Cuts {
+	return &Cuts{Edges: map[Edge]bool{}, Instrs: map[ssa.Instruction]bool{}, Via: map[viaEdge]bool{}}
+}
+
+// AddVia cuts successor edge e only for paths entering e.From through pred.
+func (c *Cuts) AddVia(pred *ssa.BasicBlock, e Edge) *Cuts {
+	c.Via[viaEdge{pred, e.From, e.Succ}] = true
+	return c
+}
 
 func (c *Cuts) AddEdges(es ...Edge) *Cuts {
 	for _, e := range es {
@@ -511,14 +527,42 @@ func findPath(start Point, tg Target, cuts *Cuts) []*ssa.BasicBlock {
 	root := node{start.Block, nil}
 	var queue []node
 	expand := func(n node) {
+		// a branch on a boolean phi of this very block is decided by the edge we came in through when that
+		// incoming value is a constant ("ok := a && b; if !ok": the short-circuit edge carries false)
+		forced := -1
+		if n.via != nil {
+			if ifi := blockIf(n.b); ifi != nil {
+				a := condAtom(ifi.Cond)
+				if phi, ok := a.X.(*ssa.Phi); ok && a.Op == token.ILLEGAL && phi.Block() == n.b {
+					for i, p := range n.b.Preds {
+						if p != n.via {
+							continue
+						}
+						if bv, isC := constBool(phi.Edges[i]); isC {
+							if a.Neg {
+								bv = !bv
+							}
+							if bv {
+								forced = 0
+							} else {
+								forced = 1
+							}
+						}
+					}
+				}
+			}
+		}
 		for i, s := range n.b.Succs {
+			if forced >= 0 && i != forced && len(n.b.Succs) == 2 {
+				continue
+			}
 			if cuts != nil && cuts.Edges[Edge{n.b, i}] {
 				continue
 			}
-			m := node{s, nil}
-			if tg.Pred != nil && s == tb {
-				m.via = n.b
+			if cuts != nil && n.via != nil && cuts.Via[viaEdge{n.via, n.b, i}] {
+				continue
 			}
+			m := node{s, n.b}
 			if seen[m] {
 				continue
 			}
@@ -1152,7 +1196,12 @@ func (p *Prog) fieldAccesses(f *types.Var) []FieldAccess {
 						acc.Write = acc.Write || w
 						acc.Read = acc.Read || rd
 					case ssa.CallInstruction:
-						acc.Read, acc.Write = true, true
+						if w, rd, ok := calleeParamUses(u, x, 0); ok {
+							acc.Write = acc.Write || w
+							acc.Read = acc.Read || rd
+						} else {
+							acc.Read, acc.Write = true, true
+						}
 					case *ssa.DebugRef:
 					default:
 						acc.Read = true
@@ -1210,6 +1259,12 @@ func addrUses(v ssa.Value) (write, read bool) {
 			}
 			if calleeOnlyReadsSlices(u) {
 				read = true
+				continue
+			}
+			// a same-module callee: classify by what it does with the corresponding parameter
+			if w, r, ok := calleeParamUses(u, v, 0); ok {
+				write = write || w
+				read = read || r
 				continue
 			}
 			read, write = true, true
@@ -1279,4 +1334,90 @@ func typesLookup(t types.Type, pkg *types.Package, name string) (*types.Func, []
 	o, idx, ind := types.LookupFieldOrMethod(t, false, pkg, name)
 	f, _ := o.(*types.Func)
 	return f, idx, ind
+}
+
+// calleeParamUses: the address/slice value v is passed to a statically known module function; classify
+// the access by how that function uses the parameter (recursively, bounded). ok=false when unknown.
+func calleeParamUses(call ssa.CallInstruction, v ssa.Value, depth int) (write, read, ok bool) {
+	if depth > 3 {
+		return false, false, false
+	}
+	if _, isGo := call.(*ssa.Go); isGo {
+		return false, false, false
+	}
+	g := call.Common().StaticCallee()
+	if g == nil || g.Blocks == nil || fnPkg(g) == nil || !inModule(fnPkg(g).Path()) {
+		return false, false, false
+	}
+	args := call.Common().Args
+	found := false
+	for i, a := range args {
+		if a != v || i >= len(g.Params) {
+			continue
+		}
+		found = true
+		w, r := addrUsesDepth(g.Params[i], depth+1)
+		write = write || w
+		read = read || r
+	}
+	return write, read, found
+}
+
+func addrUsesDepth(v ssa.Value, depth int) (write, read bool) {
+	if v.Referrers() == nil {
+		return false, false
+	}
+	for _, r := range *v.Referrers() {
+		switch u := r.(type) {
+		case *ssa.Store:
+			if u.Addr == v {
+				write = true
+			} else {
+				read, write = true, true
+			}
+		case *ssa.UnOp:
+			read = true
+		case *ssa.Slice, *ssa.IndexAddr, *ssa.FieldAddr:
+			w, rd := addrUsesDepth(u.(ssa.Value), depth)
+			write = write || w
+			read = read || rd
+		case ssa.CallInstruction:
+			cc := u.Common()
+			if b, ok := cc.Value.(*ssa.Builtin); ok {
+				switch b.Name() {
+				case "copy":
+					if len(cc.Args) == 2 && cc.Args[0] == v {
+						write = true
+					}
+					if len(cc.Args) == 2 && cc.Args[1] == v {
+						read = true
+					}
+					continue
+				case "len", "cap":
+					read = true
+					continue
+				case "append":
+					read = true
+					if len(cc.Args) > 0 && cc.Args[0] == v {
+						write = true
+					}
+					continue
+				}
+			}
+			if calleeOnlyReadsSlices(u) {
+				read = true
+				continue
+			}
+			if w, rd, ok := calleeParamUses(u, v, depth); ok {
+				write = write || w
+				read = read || rd
+				continue
+			}
+			read, write = true, true
+		case *ssa.DebugRef:
+		default:
+			read = true
+		}
+	}
+	return
 }
